@@ -1,6 +1,6 @@
 (* C03: verdicts compose exactly as most-restrictive-wins. *)
 From Coq Require Import Permutation.
-From DippyV Require Import Base.Str Base.Verdict Base.Sx Base.Tree Gen.Tables Model.RawScan Model.Walker
+From DippyV Require Import Base.Str Base.Verdict Base.Sx Base.Tree Gen.Tables Model.RawScan Model.Walker Model.Cover
   Proofs.VerdictP Proofs.WalkerP.
 
 Section C03.
